@@ -1340,4 +1340,65 @@ theorem dirChunks_empty (policy : Policy) (wt : WinType) (vo : Bool) (lobe : Nat
   · replace he : u.ref = [] := by simpa using he
     simp [dirChunks, dirSlices, sliceSpectData, he]
 
+/-! ### the final gather never leaves the run lists (audit) -/
+
+theorem cntL_bounds (src : List Nat) (k j : Nat) : 0 ≤ cntL src k j ∧ cntL src k j ≤ ((min k j : Nat) : Int) := by
+  induction k with
+  | zero => simp [cntL]
+  | succ k ih =>
+    rw [cntL]
+    unfold dL
+    split <;> omega
+
+theorem cntR_bounds (src : List Nat) (k j : Nat) (hj : j < src.length) :
+    0 ≤ cntR src k j ∧ cntR src k j ≤ ((min k (src.length - 1 - j) : Nat) : Int) := by
+  induction k with
+  | zero => simp [cntR]
+  | succ k ih =>
+    rw [cntR]
+    unfold dR
+    split <;> omega
+
+/-- Every index the non-valid loop hands to the final gather `starts[start_idx]`, `ends[end_idx]` lies in
+`[0, NN)`, for ANY `sources` vector: `pyGet` never wraps around and never reads its default. -/
+theorem loopK_in_range (wt : WinType) (src : List Nat) (k : Nat) :
+    (∀ i ∈ (loopK wt src k).1, 0 ≤ i ∧ i < (src.length : Int)) ∧
+    (∀ i ∈ (loopK wt src k).2, 0 ≤ i ∧ i < (src.length : Int)) := by
+  rw [loopK_eq]
+  constructor
+  · intro i hi
+    simp only [List.mem_map, List.mem_range] at hi
+    obtain ⟨j, hj, rfl⟩ := hi
+    have := cntL_bounds src k j
+    split <;> omega
+  · intro i hi
+    simp only [List.mem_map, List.mem_range] at hi
+    obtain ⟨j, hj, rfl⟩ := hi
+    have := cntR_bounds src k j hj
+    split <;> omega
+
+/-- The two `nonzero` calls return the same number of rows (so `torch.stack([starts, ends], 1)` is
+well-formed and `mkWins` truncates nothing). -/
+theorem aliBatch_same_count (T : Nat) (rows : List (List Int)) (inLens : Option (List Int))
+    (hrows : ∀ r ∈ rows, r.length = T)
+    (hin : ∀ l, inLens = some l → ∀ x ∈ l, 0 ≤ x ∧ x ≤ (T : Int)) :
+    let masks := List.zipWith (fun row len => aliMasks T row len) rows (lensOpt rows.length inLens)
+    (nonzero2From 0 (masks.map (·.1))).length = (nonzero2From 0 (masks.map (·.2))).length := by
+  have hlens : ∀ len ∈ lensOpt rows.length inLens, ∀ l, len = some l → 0 ≤ l ∧ l ≤ (T : Int) := by
+    intro len hlen l hl
+    subst hl
+    cases inLens with
+    | none => simp [lensOpt] at hlen
+    | some ls =>
+      simp only [lensOpt, List.mem_map] at hlen
+      obtain ⟨x, hx, hx2⟩ := hlen
+      cases hx2
+      exact hin ls rfl l hx
+  have h := nonzero2From_blocks T rows (lensOpt rows.length inLens) 0 hrows hlens
+  simp only at h ⊢
+  have h2 := congrArg List.length h.2.1
+  have h3 := congrArg List.length h.2.2
+  simp only [List.length_map] at h2 h3
+  omega
+
 end PdtVerif.Slicing
